@@ -7,6 +7,7 @@ package main
 // the Coq models (Values/Merge.v, Coalesce.v, Strvals.v, Options.v) through Run/RunC04.v.
 
 import (
+	"encoding/hex"
 	"encoding/json"
 	"fmt"
 	"io"
@@ -69,11 +70,13 @@ type c04Obs struct {
 	Panic   string       `json:"panic,omitempty"`
 	Mutated []string     `json:"mutated,omitempty"` // inputs that differ from their snapshot afterwards
 	Steps   []c04OptStep `json:"steps,omitempty"`   // opts: the result after each flag (frame oracle)
+	RCalls  []c04RCall   `json:"rcalls,omitempty"`  // parse (round 4): every call of the reader callback
+	Probed  []c04Probed  `json:"probed,omitempty"`  // parse (round 4): the deep paths observed
 }
 
 func (*c04) ID() string { return "C04" }
 func (*c04) CoqImport() string {
-	return "From Helm Require Import Values.Tree Values.Coalesce Values.Strvals Values.Options Run.RunC04."
+	return "From Helm Require Import Values.Tree Values.Coalesce Values.Strvals Values.Strvals2 Values.Options Run.RunC04."
 }
 func (*c04) Rule() string {
 	return "trees of depth <= 4 over a 5-key alphabet plus odd keys (dotted, spaced, non-ASCII, 'global'), with nulls, lists, " +
@@ -192,6 +195,7 @@ func (*c04) Corpus() []any {
 		}
 	}
 	out = append(out, c04Case{Kind: "tables", Merge: true, A: vtree{"a": nil, "b": vtree{"c": nil}}, B: vtree{"a": int64(1), "b": vtree{"c": int64(2), "d": int64(3)}}, Tag: "corpus"})
+	out = append(out, c04Corpus2()...)
 	return out
 }
 
@@ -218,6 +222,7 @@ func (*c04) Exhaustive(tier string) []any {
 		}
 	}
 	rec("", maxLen)
+	out = append(out, c04Exhaustive2(tier)...)
 	return out
 }
 
@@ -269,6 +274,8 @@ func (*c04) Generate(r *rand.Rand, _ int) any {
 		return c04GenOpts(r, base)
 	case k < 20:
 		return c04GenParse(r, base)
+	case k < 28:
+		return c04GenParse2(r, base)
 	}
 	switch k := r.Intn(20); {
 	case k < 5:
@@ -402,6 +409,15 @@ func (*c04) Decode(raw json.RawMessage) (any, error) {
 		for i := range c.Parse.Pairs {
 			c.Parse.Pairs[i].Val = vtNorm(c.Parse.Pairs[i].Val)
 		}
+		if c.Parse.SHex != "" {
+			if b, err := hex.DecodeString(c.Parse.SHex); err == nil {
+				c.Parse.S = string(b)
+			}
+		}
+		for k, rv := range c.Parse.Reader {
+			rv.Val = vtNorm(rv.Val)
+			c.Parse.Reader[k] = rv
+		}
 	}
 	return c, nil
 }
@@ -472,7 +488,11 @@ func (*c04) Execute(ci any) (res any) {
 	case "opts":
 		c04ExecOpts(c.Opts, &obs)
 	case "parse":
-		c04ExecParse(c.Parse, &obs)
+		if c.Parse.V2 {
+			c04ExecParse2(c.Parse, &obs)
+		} else {
+			c04ExecParse(c.Parse, &obs)
+		}
 	case "mergemaps":
 		a, b := vtCopyMap(c.A), vtCopyMap(c.B)
 		obs.Out = loader.MergeMaps(a, b)
@@ -583,6 +603,9 @@ func (*c04) CoqCase(ci, oi any) string {
 	case "opts":
 		return fmt.Sprintf("COpts %s %s", c04CoqOpts(c.Opts), c04CoqRes(obs))
 	case "parse":
+		if c.Parse.V2 {
+			return c04CoqParse2(c.Parse, obs)
+		}
 		return c04CoqParse(c.Parse, c04CoqParseRes(obs))
 	case "mergemaps":
 		return fmt.Sprintf("CMergeMaps %s %s %s", hx.CoqValMap(c.A), hx.CoqValMap(c.B), c04CoqRes(obs))
